@@ -9,6 +9,9 @@ import (
 	"io"
 	"math/rand"
 	"net"
+	"net/http"
+	"net/http/httptest"
+	"net/url"
 	"sort"
 	"strconv"
 	"strings"
@@ -32,13 +35,20 @@ import (
 // HTTPReverseProxy.ServeHTTP, a TLS ClientHello to the real HTTPS muxer, an HTTP CONNECT to the real
 // tcpmux muxer (in-memory listeners, no sockets).  Every proxy's GetWorkConnFn records "proxy <id> was
 // asked for a work connection" and refuses, so the answer of a request is the proxy instance it was
-// delivered to.
+// delivered to.  The generator repeats its request lines byte for byte across later registration changes and
+// brackets every kind of change (plain proxy, first / further / leaving / last member of an http group) with the
+// same requests: a lookup must depend on the table at the time of the request only (C06.lookup_depends_only_on_table,
+// C06.traffic_most_specific).
 //
 //	reset <subDomainHost>
 //	run <id> http|https|tcpmux <name> <domains> <subdomain> <locations> <routeUser> <group> <groupKey>
+//	      [<httpUser> <httpPassword>]                                     (http only: the credentials of the proxy's routes)
 //	      <domains>, <locations>: comma separated hx tokens ("-" = none)   => ok | busy | conflict | params | auth | repeated | err:<text>
 //	close <id>                                                           => -
 //	hreq <name> <dot 0|1> <port|-> <path> <user>     Host: name[.][:port]   => <id> | none | many:<ids>
+//	areq <name> <dot 0|1> <port|-> <path> <user> <password>   the same with a basic-auth PAIR: the user routes, the pair is
+//	      checked against the credentials of the route  => 401 | none | <id>:<p|g>:<c0|c1> | many:<ids>
+//	      (p = plain proxy, g = member of a group; c1 = the pair satisfies the credentials proxy <id> itself was configured with)
 //	creq <name> <dot 0|1> <port|-> <user>            CONNECT name[.][:port] => <id> | none
 //	sreq <name>                                      ClientHello SNI        => <id> | none
 //	view                                             => http[keys]https[keys]tcpmux[keys]   (route tables, domain|location|user)
@@ -68,6 +78,7 @@ type vregState struct {
 	lnS     *vregLn
 	lnM     *vregLn
 	pxs     map[int]proxy.Proxy
+	meta    map[int][3]string // group, httpUser, httpPassword of a running proxy
 	mu      sync.Mutex
 	hits    []string
 }
@@ -82,7 +93,7 @@ func vregReset(sh string) {
 		vregSt.lnS.Close()
 		vregSt.lnM.Close()
 	}
-	st := &vregState{pxs: map[int]proxy.Proxy{}, lnS: newVregLn(), lnM: newVregLn()}
+	st := &vregState{pxs: map[int]proxy.Proxy{}, meta: map[int][3]string{}, lnS: newVregLn(), lnM: newVregLn()}
 	cfg := &v1.ServerConfig{}
 	cfg.Complete()
 	cfg.SubDomainHost = sh
@@ -133,7 +144,7 @@ func (st *vregState) answer() string {
 	return routerHits(st.hits)
 }
 
-func (st *vregState) run(id int, typ, name string, doms []string, sub string, locs []string, user, grp, gkey string) string {
+func (st *vregState) run(id int, typ, name string, doms []string, sub string, locs []string, user, grp, gkey, hu, hp string) string {
 	if _, ok := st.pxs[id]; ok {
 		return "busy"
 	}
@@ -144,7 +155,8 @@ func (st *vregState) run(id int, typ, name string, doms []string, sub string, lo
 	var c v1.ProxyConfigurer
 	switch typ {
 	case "http":
-		c = &v1.HTTPProxyConfig{ProxyBaseConfig: base, DomainConfig: dc, Locations: locs, RouteByHTTPUser: user}
+		c = &v1.HTTPProxyConfig{ProxyBaseConfig: base, DomainConfig: dc, Locations: locs, RouteByHTTPUser: user,
+			HTTPUser: hu, HTTPPassword: hp}
 	case "https":
 		c = &v1.HTTPSProxyConfig{ProxyBaseConfig: base, DomainConfig: dc}
 	case "tcpmux":
@@ -180,7 +192,22 @@ func (st *vregState) run(id int, typ, name string, doms []string, sub string, lo
 		return "err:" + hx(err.Error())
 	}
 	st.pxs[id] = pxy
+	st.meta[id] = [3]string{grp, hu, hp}
 	return "ok"
+}
+
+// vregServeAuth: one GET through the real ServeHTTP carrying a basic-auth pair
+func vregServeAuth(rp *vhost.HTTPReverseProxy, host, path, user, pwd string) int {
+	req := &http.Request{
+		Method: "GET", URL: &url.URL{Path: path}, Host: host, Header: http.Header{},
+		Proto: "HTTP/1.1", ProtoMajor: 1, ProtoMinor: 1, RemoteAddr: "127.0.0.1:9",
+	}
+	if user != "" || pwd != "" {
+		req.SetBasicAuth(user, pwd)
+	}
+	rw := httptest.NewRecorder()
+	rp.ServeHTTP(rw, req.WithContext(context.Background()))
+	return rw.Code
 }
 
 // a healthy request is answered by events (alert / 404 / EOF after the work-connection request) within
@@ -225,18 +252,42 @@ func vregExec(tok []string) string {
 	st := vregSt
 	switch tok[0] {
 	case "run":
+		hu, hp := "", ""
+		if len(tok) >= 12 && tok[2] == "http" {
+			hu, hp = unhx(tok[10]), unhx(tok[11])
+		}
 		return st.run(atoi(tok[1]), tok[2], unhx(tok[3]), vregCSV(tok[4]), unhx(tok[5]), vregCSV(tok[6]),
-			unhx(tok[7]), unhx(tok[8]), unhx(tok[9]))
+			unhx(tok[7]), unhx(tok[8]), unhx(tok[9]), hu, hp)
 	case "close":
 		if p, ok := st.pxs[atoi(tok[1])]; ok {
 			p.Close()
 			delete(st.pxs, atoi(tok[1]))
+			delete(st.meta, atoi(tok[1]))
 		}
 		return "-"
 	case "hreq":
 		st.clearHits()
 		routerServe(st.rc.HTTPReverseProxy, routerSpell(tok[1], tok[2], tok[3]), unhx(tok[4]), unhx(tok[5]))
 		return st.answer()
+	case "areq":
+		st.clearHits()
+		user, pwd := unhx(tok[5]), unhx(tok[6])
+		code := vregServeAuth(st.rc.HTTPReverseProxy, routerSpell(tok[1], tok[2], tok[3]), unhx(tok[4]), user, pwd)
+		ans := st.answer()
+		if code == 401 && ans == "none" {
+			return "401"
+		}
+		if id, err := strconv.Atoi(ans); err == nil {
+			m, kind, ok := st.meta[id], "p", "c0"
+			if m[0] != "" {
+				kind = "g"
+			}
+			if (m[1] == "" && m[2] == "") || (m[1] == user && m[2] == pwd) {
+				ok = "c1"
+			}
+			return ans + ":" + kind + ":" + ok
+		}
+		return ans
 	case "creq":
 		st.clearHits()
 		c, ok := vregDial(st.lnM)
@@ -301,78 +352,328 @@ func vregPickCSV(rng *rand.Rand, pool []string, max int) string {
 	return strings.Join(out, ",")
 }
 
+// what the generator remembers of a proxy it has started (tokens as they appear on the op line)
+type vregGenPx struct {
+	id                                            int
+	typ, name, doms, sub, locs, user, grp, gkey string
+	hu, hp                                      string // httpUser / httpPassword tokens ("" = the short form of the op)
+}
+
+func (p vregGenPx) line(id int) string {
+	l := fmt.Sprintf("run %d %s %s %s %s %s %s %s %s", id, p.typ, p.name, p.doms, p.sub, p.locs, p.user, p.grp, p.gkey)
+	if p.hu != "" {
+		l += " " + p.hu + " " + p.hp
+	}
+	return l
+}
+
+// credentials of protected proxies; the user names are also route users, so that a protected route restricted to its
+// user, a protected unrestricted one and an unprotected one can sit on one host
+var vregCreds = [][2]string{{"", ""}, {"alice", "pw"}, {"alice", "pw"}, {"bob", "pw"}, {"alice", "pw2"}, {"", "pw"}, {"carol", ""}}
+
+// vregGenState: the live proxies as the generator believes them to be (a refused run is "live" here and its close a
+// no-op for frp — both are legal histories) and the most recent request lines, kept to be REPEATED verbatim after
+// later registration changes: the property quantifies over histories interleaved with traffic, and a lookup must
+// depend on the table at the time of the request only, not on what the same (host, path, user) resolved to before.
+type vregGenState struct {
+	rng    *rand.Rand
+	emit   func(string)
+	id     int
+	live   []vregGenPx
+	probes []string
+	sh     string
+}
+
+func (g *vregGenState) req(line string) {
+	g.emit(line)
+	for _, p := range g.probes {
+		if p == line {
+			return
+		}
+	}
+	g.probes = append(g.probes, line)
+	if len(g.probes) > 10 {
+		g.probes = g.probes[1:]
+	}
+}
+
+// again repeats up to k remembered request lines, byte for byte
+func (g *vregGenState) again(k int) {
+	for i := 0; i < k && len(g.probes) > 0; i++ {
+		g.emit(pick(g.rng, g.probes))
+	}
+}
+
+func (g *vregGenState) newPx(typ string) vregGenPx {
+	rng := g.rng
+	if typ == "" {
+		typ = pick(rng, []string{"http", "http", "http", "http", "https", "tcpmux"})
+	}
+	p := vregGenPx{typ: typ,
+		name: hx(fmt.Sprintf("p%d", 1+rng.Intn(5))), doms: vregPickCSV(rng, vregDoms, 3), sub: hx(pick(rng, vregSubs)),
+		locs: "-", user: hx(""), grp: hx(""), gkey: hx("")}
+	switch p.typ {
+	case "http":
+		p.locs = vregPickCSV(rng, vregLocs, 3)
+		p.user = hx(pick(rng, vregUsers))
+		if rng.Intn(3) == 0 {
+			c := pick(rng, vregCreds)
+			p.hu, p.hp = hx(c[0]), hx(c[1])
+		}
+		if rng.Intn(3) == 0 {
+			grp := pick(rng, []string{"g1", "g1", "g2", "G1"})
+			if rng.Intn(4) == 0 {
+				grp = fmt.Sprintf("n%d", g.id) // a group that does not exist yet
+			}
+			p.grp = hx(grp)
+			p.gkey = hx(pick(rng, []string{"k", "k", "k", "k2"}))
+			if rng.Intn(2) == 0 {
+				// the common shape of a load-balanced proxy: one domain, at most one location
+				p.doms = hx(pick(rng, vregDoms[:3]))
+				p.sub = hx("")
+				p.locs = vregPickCSV(rng, vregLocs[:2], 1)
+				p.user = hx(pick(rng, vregUsers[:4]))
+			}
+		}
+	case "tcpmux":
+		p.user = hx(pick(rng, vregUsers))
+	}
+	return p
+}
+
+func (g *vregGenState) start(p vregGenPx) {
+	g.id++
+	p.id = g.id
+	g.emit(p.line(p.id))
+	g.live = append(g.live, p)
+}
+
+func (g *vregGenState) stop(j int) {
+	g.emit(fmt.Sprintf("close %d", g.live[j].id))
+	g.live = append(g.live[:j], g.live[j+1:]...)
+}
+
+// a request name that the domain pattern matches ("" when it stands for nothing)
+func vregUnder(rng *rand.Rand, dom string) string {
+	dom = strings.ToLower(dom)
+	switch {
+	case dom == "*":
+		return pick(rng, vregReqs)
+	case strings.HasPrefix(dom, "*."):
+		return pick(rng, []string{"q", "t", "y.x", "a"}) + dom[1:]
+	}
+	return dom
+}
+
+// aimed: request lines that the routes of p can answer (its domains / subdomain host, paths extending its locations,
+// its route user or none), of the kind that reaches p's route table
+func (g *vregGenState) aimed(p vregGenPx, k int) []string {
+	rng := g.rng
+	doms := vregCSV(p.doms)
+	if s := unhx(p.sub); s != "" {
+		doms = append(doms, s+"."+g.sh)
+	}
+	names := []string{}
+	for _, d := range doms {
+		if d != "" {
+			names = append(names, vregUnder(rng, d))
+		}
+	}
+	if len(names) == 0 {
+		names = append(names, pick(rng, vregReqs))
+	}
+	locs := vregCSV(p.locs)
+	if len(locs) == 0 {
+		locs = []string{""}
+	}
+	out := []string{}
+	for i := 0; i < k; i++ {
+		nm, dot, port := genSpelling(rng, pick(rng, names))
+		user := unhx(p.user)
+		if rng.Intn(3) == 0 {
+			user = pick(rng, vregUsers)
+		}
+		switch p.typ {
+		case "http":
+			path := pick(rng, locs) + pick(rng, []string{"", "", "/", "x", "/x", "b", "/b/c"})
+			if p.hu != "" || rng.Intn(4) == 0 {
+				own := [2]string{}
+				if p.hu != "" {
+					own = [2]string{unhx(p.hu), unhx(p.hp)}
+				}
+				out = append(out, g.areq(nm, dot, port, path, user, own))
+				continue
+			}
+			out = append(out, "hreq "+hx(nm)+" "+dot+" "+port+" "+hx(path)+" "+hx(user))
+		case "tcpmux":
+			if port != "-" && (unhx(port) == "" || strings.ContainsAny(unhx(port), "x:]")) {
+				port = hx("443")
+			}
+			out = append(out, "creq "+hx(nm)+" "+dot+" "+port+" "+hx(user))
+		default:
+			out = append(out, "sreq "+hx(nm))
+		}
+	}
+	return out
+}
+
+// areq: a request with a basic-auth pair — the credentials `own` of the proxy it is aimed at, that pair's user with
+// another password, another known pair, or the bare route user
+func (g *vregGenState) areq(nm, dot, port, path, user string, own [2]string) string {
+	c := own
+	switch g.rng.Intn(4) {
+	case 0:
+		c = pick(g.rng, vregCreds)
+	case 1:
+		c = [2]string{user, pick(g.rng, []string{"", "pw", "pw2", "x"})}
+	}
+	if c[0] == "" && g.rng.Intn(2) == 0 {
+		c[0] = user
+	}
+	return "areq " + hx(nm) + " " + dot + " " + port + " " + hx(path) + " " + hx(c[0]) + " " + hx(c[1])
+}
+
+// bracket: the SAME requests before and after one registration change of a chosen kind — a plain proxy (http, https,
+// tcpmux) starts or closes, the first member of an http group starts, a further member joins, a member that is not the
+// last one leaves, the last member leaves — and once more after the change has been undone.  Nothing else happens in
+// between, so whatever the implementation remembers of the first round is still there in the second.
+func (g *vregGenState) bracket() {
+	rng := g.rng
+	kind := rng.Intn(6)
+	var p vregGenPx
+	closing := -1
+	grouped := func(want bool) []int {
+		js := []int{}
+		for j, q := range g.live {
+			if q.typ == "http" && (unhx(q.grp) != "") == want || (!want && q.typ != "http") {
+				js = append(js, j)
+			}
+		}
+		return js
+	}
+	switch kind {
+	case 0: // a plain proxy starts (the three route tables alike)
+		p = g.newPx(pick(rng, []string{"http", "https", "tcpmux"}))
+		p.grp, p.gkey = hx(""), hx("")
+	case 1: // the first member of a group that does not exist
+		p = g.newPx("http")
+		p.doms, p.sub = hx(pick(rng, vregDoms[:9])), hx("")
+		p.locs = vregPickCSV(rng, vregLocs, 1)
+		p.user = hx(pick(rng, vregUsers))
+		p.grp, p.gkey = hx(fmt.Sprintf("b%d", g.id)), hx("k")
+	case 2: // a further member joins a live group (same parameters, mostly another name)
+		js := grouped(true)
+		if len(js) == 0 {
+			return
+		}
+		p = g.live[pick(rng, js)]
+		p.name = hx(fmt.Sprintf("p%d", 1+rng.Intn(5)))
+		if rng.Intn(6) == 0 {
+			p.gkey = hx("k2") // mostly the wrong key
+		}
+		if rng.Intn(3) == 0 {
+			// a member configured with other credentials than the one it was copied from
+			c := pick(rng, vregCreds)
+			p.hu, p.hp = hx(c[0]), hx(c[1])
+		}
+	case 3, 4: // a member of a group leaves (the last one or not, as the history has it)
+		js := grouped(true)
+		if len(js) == 0 {
+			return
+		}
+		closing = pick(rng, js)
+		p = g.live[closing]
+	default: // a plain proxy closes
+		js := grouped(false)
+		if len(js) == 0 {
+			return
+		}
+		closing = pick(rng, js)
+		p = g.live[closing]
+	}
+	ps := g.aimed(p, 1+rng.Intn(3))
+	if len(g.probes) > 0 && rng.Intn(2) == 0 {
+		ps = append(ps, pick(rng, g.probes))
+	}
+	round := func() {
+		for _, l := range ps {
+			g.req(l)
+		}
+	}
+	round()
+	if closing >= 0 {
+		g.stop(closing)
+	} else {
+		g.start(p)
+	}
+	round()
+	if rng.Intn(2) == 0 {
+		// undo: close what was started / start again what was closed (a new instance, same configuration)
+		if closing >= 0 {
+			g.start(p)
+		} else {
+			g.stop(len(g.live) - 1)
+		}
+		round()
+	}
+}
+
 func vregGen(rng *rand.Rand, n int, emit func(string)) {
-	emit("reset " + hx(vregSHs[0]))
-	id := 0
-	live := []int{}
-	for i := 0; i < n; i++ {
+	cnt := 0
+	g := &vregGenState{rng: rng, sh: vregSHs[0]}
+	g.emit = func(l string) { cnt++; emit(l) }
+	emit("reset " + hx(g.sh))
+	for cnt < n {
 		k := rng.Intn(100)
 		switch {
 		case k < 2:
-			emit("reset " + hx(pick(rng, vregSHs)))
-			live = live[:0]
-		case k < 30:
-			id++
-			rid := id
-			if len(live) > 0 && rng.Intn(12) == 0 {
-				rid = pick(rng, live) // an instance that is already running
+			g.sh = pick(rng, vregSHs)
+			emit("reset " + hx(g.sh))
+			g.live = g.live[:0]
+		case k < 26:
+			p := g.newPx("")
+			if len(g.live) > 0 && rng.Intn(12) == 0 {
+				// an instance that is already running
+				g.emit(p.line(pick(rng, g.live).id))
+			} else {
+				g.start(p)
 			}
-			typ := pick(rng, []string{"http", "http", "http", "http", "https", "tcpmux"})
-			name := fmt.Sprintf("p%d", 1+rng.Intn(5))
-			doms := vregPickCSV(rng, vregDoms, 3)
-			sub := pick(rng, vregSubs)
-			locs, user, grp, gkey := "-", "", "", ""
-			switch typ {
-			case "http":
-				locs = vregPickCSV(rng, vregLocs, 3)
-				user = pick(rng, vregUsers)
-				if rng.Intn(3) == 0 {
-					grp = pick(rng, []string{"g1", "g1", "g2", "G1"})
-					if rng.Intn(4) == 0 {
-						grp = fmt.Sprintf("n%d", id) // a group that does not exist yet
-					}
-					gkey = pick(rng, []string{"k", "k", "k", "k2"})
-					if rng.Intn(2) == 0 {
-						// the common shape of a load-balanced proxy: one domain, at most one location
-						doms = hx(pick(rng, vregDoms[:3]))
-						sub = ""
-						locs = vregPickCSV(rng, vregLocs[:2], 1)
-						user = pick(rng, vregUsers[:4])
-					}
-				}
-			case "tcpmux":
-				user = pick(rng, vregUsers)
+			if rng.Intn(2) == 0 {
+				g.again(1 + rng.Intn(2))
 			}
-			emit(fmt.Sprintf("run %d %s %s %s %s %s %s %s %s", rid, typ, hx(name), doms, hx(sub), locs, hx(user), hx(grp), hx(gkey)))
-			if rid == id {
-				live = append(live, id)
-			}
-		case k < 42:
-			if len(live) == 0 {
+		case k < 36:
+			if len(g.live) == 0 {
 				continue
 			}
-			j := rng.Intn(len(live))
-			cid := live[j]
 			if rng.Intn(10) == 0 {
-				cid = 1 + rng.Intn(id+2)
+				g.emit(fmt.Sprintf("close %d", 1+rng.Intn(g.id+2)))
 			} else {
-				live = append(live[:j], live[j+1:]...)
+				g.stop(rng.Intn(len(g.live)))
 			}
-			emit(fmt.Sprintf("close %d", cid))
-		case k < 72:
+			if rng.Intn(2) == 0 {
+				g.again(1 + rng.Intn(2))
+			}
+		case k < 46:
+			g.bracket()
+		case k < 66:
 			nm, dot, port := genSpelling(rng, pick(rng, vregReqs))
-			emit("hreq " + hx(nm) + " " + dot + " " + port + " " + hx(genPath(rng)) + " " + hx(pick(rng, vregUsers)))
-		case k < 80:
+			g.req("hreq " + hx(nm) + " " + dot + " " + port + " " + hx(genPath(rng)) + " " + hx(pick(rng, vregUsers)))
+		case k < 70:
+			nm, dot, port := genSpelling(rng, pick(rng, vregReqs))
+			g.req(g.areq(nm, dot, port, genPath(rng), pick(rng, vregUsers), pick(rng, vregCreds)))
+		case k < 78:
 			nm, dot, port := genSpelling(rng, pick(rng, vregReqs))
 			if port != "-" && (unhx(port) == "" || strings.ContainsAny(unhx(port), "x:]")) {
 				port = hx("443") // net/http refuses a CONNECT target with a non-numeric port before frp sees it
 			}
-			emit("creq " + hx(nm) + " " + dot + " " + port + " " + hx(pick(rng, vregUsers)))
-		case k < 88:
+			g.req("creq " + hx(nm) + " " + dot + " " + port + " " + hx(pick(rng, vregUsers)))
+		case k < 86:
 			nm, _, _ := genSpelling(rng, pick(rng, vregReqs))
-			emit("sreq " + hx(nm))
+			g.req("sreq " + hx(nm))
+		case k < 90:
+			g.again(1 + rng.Intn(3))
 		default:
-			emit("view")
+			g.emit("view")
 		}
 	}
 	emit("view")
